@@ -167,7 +167,7 @@ def handle (j : J) : Except String J := do
       | some (J.arr xs) => xs.filterMap fun x => match x with | J.str t => some t | _ => none
       | _ => []
     let has (t : String) : Bool := fixes.contains t
-    let fx : Fix := ⟨has "K5", has "K6", has "K7", has "K8", has "K9", has "K10", has "K13", has "K14", has "K16"⟩
+    let fx : Fix := ⟨has "K5", has "K6", has "K7", has "K8", has "K9", has "K10", has "K13", has "K14", has "K16", has "K1"⟩
     -- "var": ["D46", …] = the result-changing repairs of other properties that the tree has
     let vars : List String := match j.get? "var" with
       | some (J.arr xs) => xs.filterMap fun x => match x with | J.str t => some t | _ => none
@@ -183,7 +183,7 @@ def handle (j : J) : Except String J := do
     match j.get? "core" with
     | some (J.bool true) =>
       match a with
-      | J.obj kv => pure (J.obj (kv ++ [("core", answer Cfg.core d raw)]))
+      | J.obj kv => pure (J.obj (kv ++ [("core", answer { Cfg.core with fix := { Fix.none with k1 := fx.k1 } } d raw)]))
       | other => pure other
     | _ => pure a
   else throw s!"unknown op {op}"
